@@ -129,7 +129,7 @@ def coq_cone(target_v):
             continue
         seen.append(f)
         src = open(os.path.join(COQ, f)).read()
-        for m in re.finditer(r'From\s+TP\s+Require\s+(?:Import|Export)?\s*([^.]*(?:\.[A-Za-z_][^.\s]*)*)\s*\.\s', strip_comments(src)):
+        for m in re.finditer(r'From\s+TP\s+Require\s+(?:Import\s+|Export\s+)?(.*?)\.\s', strip_comments(src), re.S):
             for name in m.group(1).split():
                 p = name.replace('.', '/') + '.v'
                 if os.path.exists(os.path.join(COQ, p)):
@@ -426,3 +426,14 @@ def frac(x):
         return Fraction(x)
     x = float(x)
     return Fraction(*x.as_integer_ratio())
+
+
+def quiet_trackpy():
+    import logging, warnings
+    warnings.filterwarnings('ignore')
+    try:
+        import trackpy
+        trackpy.quiet()
+        logging.getLogger('trackpy').setLevel(logging.ERROR)
+    except Exception:
+        pass
